@@ -85,6 +85,18 @@ Theorem C03_connection_added_wakes : forall fuel nw w d u,
 Proof. intros fuel nw w d u V w0 w2 NEW. unfold rewire. rewrite V. cbn [fold_left]. fold w0. fold w2. rewrite NEW. reflexivity. Qed.
 Print Assumptions C03_connection_added_wakes.
 
+(** a device constructed while the simulation is in progress with upstream devices named in its constructor: once it exists and
+    is initialised, the connection is made exactly as by [set_upstream] — so every named upstream device is told at that same
+    instant ([C03_connection_added_wakes]).  [reach_in] (FloorIdle.v) has such constructions among its steps, so the queue-level
+    theorem below covers them. *)
+Theorem C03_late_device_is_connected_like_rewire : forall fuel nw w d ups,
+  d_live (getd w d) = false -> pristine (getd w d) = true -> late_kind (d_kind (getd w d)) = true -> amem d (f_devs w) = true ->
+  d_up (getd w d) = [] -> d_down (getd w d) = [] ->
+  late_create fuel nw w d ups =
+  rewire fuel nw (init_dev fuel nw (updd (w <| f_next_id := f_next_id w + 1 |>) d t_live) d) d ups.
+Proof. intros fuel nw w d ups L P K A U D. unfold late_create. rewrite L, P, K, A, U, D. reflexivity. Qed.
+Print Assumptions C03_late_device_is_connected_like_rewire.
+
 (** * queue level: no ready part is forgotten *)
 Theorem C03_ready_part_flagged_or_pending : forall sc s d,
   reach_in sc s -> ready (getd (fst s) d) ->
